@@ -67,23 +67,34 @@ pub fn range_cells() -> Vec<(String, usize, bool)> {
 
 /// wrong values for a cell holding `v` (all different from v as field elements); `r` = a seeded element
 pub fn menu(v: u64, r: u64) -> Vec<u64> {
+    menu_kinds(v, r).into_iter().map(|x| x.1).collect()
+}
+
+/// the menu with a name for each wrong-value kind: the relation of the wrong value to the honest one
+pub fn menu_kinds(v: u64, r: u64) -> Vec<(&'static str, u64)> {
     let v = v % P;
-    let mut m = vec![((v as u128 + 1) % P as u128) as u64, ((v as u128 + P as u128 - 1) % P as u128) as u64, ((v as u128 + 3) % P as u128) as u64];
+    let add = |d: u128| ((v as u128 + d) % P as u128) as u64;
+    let mut m: Vec<(&'static str, u64)> = vec![("plus1", add(1)), ("minus1", add(P as u128 - 1)), ("plus3", add(3))];
     if v <= 1 {
-        m.push(1 - v);
-        m.push(2);
+        m.push(("flip", 1 - v));
+        m.push(("two", 2));
     } else {
-        m.push(0);
-        m.push(1);
+        m.push(("zero", 0));
+        m.push(("one", 1));
     }
-    let r = r % P;
-    if r != v {
-        m.push(r);
+    m.push(("random", r % P));
+    let mut out: Vec<(&'static str, u64)> = vec![];
+    for (k, x) in m {
+        if x != v && !out.iter().any(|(_, y)| *y == x) {
+            out.push((k, x));
+        }
     }
-    m.sort();
-    m.dedup();
-    m.retain(|x| *x != v);
-    m
+    out
+}
+
+/// the wrong value of a given kind for a cell holding `v`
+pub fn value_of_kind(kind: &str, v: u64, r: u64) -> Option<u64> {
+    menu_kinds(v, r).into_iter().find(|(k, _)| *k == kind).map(|x| x.1)
 }
 
 pub fn stack_key(main: &ColMatrix<Felt>, r: usize) -> String {
@@ -183,7 +194,7 @@ pub fn load_table() -> BTreeMap<String, BTreeMap<String, String>> {
 pub type Tally = BTreeMap<String, BTreeMap<String, (u64, u64)>>;
 
 /// injects the whole menu into every cell of up to `per_key` rows of every row kind of this trace
-pub fn sweep_trace(main: &ColMatrix<Felt>, mon: &Monitor, n_exec: usize, len: usize, per_key: usize, seed: u64, tally: &mut Tally, mut on_miss: impl FnMut(&str, &str, usize, u64, u64)) {
+pub fn sweep_trace(main: &ColMatrix<Felt>, mon: &Monitor, n_exec: usize, len: usize, per_key: usize, seed: u64, tally: &mut Tally, mut on_miss: impl FnMut(&str, &str, usize, u64, u64, &'static str)) {
     let w = main.num_cols();
     let mut cur = vec![ZERO; w];
     let mut next = vec![ZERO; w];
@@ -213,14 +224,14 @@ pub fn sweep_trace(main: &ColMatrix<Felt>, mon: &Monitor, n_exec: usize, len: us
             *c += 1;
             for (name, col, in_next) in cells.iter() {
                 let v = if *in_next { next[*col].as_int() } else { cur[*col].as_int() };
-                for val in menu(v, rr.next()) {
+                for (kind, val) in menu_kinds(v, rr.next()) {
                     let rej = rejected(mon, &cur, &next, r, *col, *in_next, val, &mut buf);
                     let e = tally.entry(key.clone()).or_default().entry(name.clone()).or_insert((0, 0));
                     e.0 += 1;
                     if rej {
                         e.1 += 1;
                     } else {
-                        on_miss(&key, name, r, v, val);
+                        on_miss(&key, name, r, v, val, kind);
                     }
                 }
             }
@@ -250,7 +261,7 @@ pub fn learn(ntraces: u64) -> i32 {
                 if let Outcome::Ok(t) = vm::run(&program, spec.stack(), &mut host, vm::options(Some(1 << 20), 64, false)) {
                     let mon = Monitor::new(&t, spec.stack());
                     let n = t.trace_len_summary().main_trace_len();
-                    sweep_trace(t.main_segment(), &mon, n, t.length(), 6, rng.next(), &mut tally, |_, _, _, _, _| {});
+                    sweep_trace(t.main_segment(), &mon, n, t.length(), 6, rng.next(), &mut tally, |_, _, _, _, _, _| {});
                     done += 1;
                 }
             }
@@ -348,8 +359,18 @@ impl Prop for C04 {
             doc.insert(op, (pos, extra));
         }
         let mut tally: Tally = BTreeMap::new();
-        let mut misses: Vec<(String, String, usize, u64, u64)> = vec![];
-        sweep_trace(main, &mon, n, t.length(), 4, sc["sweep_seed"].as_u64().unwrap_or(1), &mut tally, |k, c, r, v, val| misses.push((k.to_string(), c.to_string(), r, v, val)));
+        let mut misses: Vec<(String, String, usize, u64, u64, &'static str)> = vec![];
+        sweep_trace(main, &mon, n, t.length(), 4, sc["sweep_seed"].as_u64().unwrap_or(1), &mut tally, |k, c, r, v, val, kind| misses.push((k.to_string(), c.to_string(), r, v, val, kind)));
+        // rows of every kind, for the confirmation of a miss on other rows of the same kind
+        let mut rows_of: BTreeMap<String, Vec<usize>> = BTreeMap::new();
+        for r in 0..t.length() - 2 {
+            if r < n {
+                rows_of.entry(stack_key(main, r)).or_default().push(r);
+            }
+            rows_of.entry(chip_key(main, r)).or_default().push(r);
+            rows_of.entry(range_key(main, r)).or_default().push(r);
+        }
+        let all_cells: Vec<(String, usize, bool)> = stack_cells().into_iter().chain(chiplet_cells()).chain(range_cells()).collect();
         let mut subs = std::collections::BTreeSet::new();
         let mut obs = Fnv::new();
         let mut enforced_evals = 0u64;
@@ -398,9 +419,36 @@ impl Prop for C04 {
                 obs.str(key).str(cell).u64(*rej);
             }
         }
-        for (key, cell, r, v, val) in &misses {
+        let mut judged: std::collections::BTreeSet<(String, String, &'static str)> = Default::default();
+        for (key, cell, r, v, val, kind) in &misses {
             let (src, enf) = classify(key, cell);
-            if !enf {
+            if !enf || !judged.insert((key.clone(), cell.clone(), kind)) {
+                continue;
+            }
+            // A single wrong value that passes may be a coincidence of values (it yields another
+            // valid transition). A weakened or unwired constraint lets the same kind of wrong value
+            // through on the rows of that kind in general: confirm on up to 40 rows of the kind.
+            let (col, in_next) = all_cells.iter().find(|(nm, _, _)| nm == cell).map(|(_, c, nx)| (*c, *nx)).unwrap();
+            let w = main.num_cols();
+            let (mut cur, mut next, mut buf) = (vec![ZERO; w], vec![ZERO; w], vec![ZERO; mon.n_main]);
+            let (mut tried, mut passed) = (0u32, 0u32);
+            for rr in rows_of.get(key).map(|v| v.as_slice()).unwrap_or(&[]).iter().take(40) {
+                main.read_row_into(*rr, &mut cur);
+                main.read_row_into(*rr + 1, &mut next);
+                let hv = if in_next { next[col].as_int() } else { cur[col].as_int() };
+                if let Some(x) = value_of_kind(kind, hv, *val) {
+                    tried += 1;
+                    if !rejected(&mon, &cur, &next, *rr, col, in_next, x, &mut buf) {
+                        passed += 1;
+                    }
+                }
+            }
+            if tried < 2 {
+                out.count("probe:miss-on-a-single-row-not-judged");
+                continue;
+            }
+            if passed * 2 < tried {
+                out.count("probe:miss-is-a-value-coincidence");
                 continue;
             }
             let what = key.split('|').collect::<Vec<_>>();
@@ -410,7 +458,7 @@ impl Prop for C04 {
             } else {
                 format!("C04/not-rejected/{}/{}", key.replace('|', "/"), cell)
             };
-            out.violate(class, format!("row {r} ({key}): cell {cell} changed from {v} to {val}: no main transition constraint of the row pair is violated"));
+            out.violate(class, format!("row {r} ({key}): cell {cell} changed from {v} to {val} (kind {kind}): no main transition constraint of the row pair is violated; the same kind of wrong value passes on {passed} of {tried} rows of this kind"));
         }
         out.evals = enforced_evals.max(1);
         out.nontrivial = enforced_evals > 0;
